@@ -154,8 +154,13 @@ impl<S: WebSocket, T: TimestampProvider> Task<S, T> {
                 (true, Ok(()))
             }
         };
-        self.wind_down(should_drain_frame_rx, tx_msg_rx, dropped_flows_rx)
-            .await;
+        self.wind_down(
+            should_drain_frame_rx,
+            res.is_err(),
+            tx_msg_rx,
+            dropped_flows_rx,
+        )
+        .await;
         res
     }
 
@@ -293,6 +298,7 @@ impl<S: WebSocket, T: TimestampProvider> Task<S, T> {
     async fn wind_down(
         &self,
         should_drain_msg_rx: bool,
+        connection_broken: bool,
         mut tx_msg_rx: mpsc::UnboundedReceiver<Message>,
         mut dropped_flows_rx: mpsc::UnboundedReceiver<u32>,
     ) {
@@ -338,9 +344,21 @@ impl<S: WebSocket, T: TimestampProvider> Task<S, T> {
         poll_fn(|cx| self.ws.lock().poll_close_unpin(cx)).await.ok();
         // The above line only closes the `Sink`. Before we terminate connections,
         // we dispatch the remaining frames in the `Source` to our streams.
-        while let Some(Ok(msg)) = poll_fn(|cx| self.ws.lock().poll_next_unpin(cx)).await {
-            debug!("processing remaining message after closure {msg:?}");
-            self.process_message(msg, true).await.ok();
+        if connection_broken {
+            // We are here because the connection failed (transport error, invalid frame or
+            // keepalive timeout), so the peer may never send anything again, not even `Close`.
+            // Only process what has already arrived instead of waiting for the peer.
+            while let Some(Some(Ok(msg))) =
+                poll_fn(|cx| self.ws.lock().poll_next_unpin(cx)).now_or_never()
+            {
+                debug!("processing remaining message after failure {msg:?}");
+                self.process_message(msg, true).await.ok();
+            }
+        } else {
+            while let Some(Ok(msg)) = poll_fn(|cx| self.ws.lock().poll_next_unpin(cx)).await {
+                debug!("processing remaining message after closure {msg:?}");
+                self.process_message(msg, true).await.ok();
+            }
         }
         // Finally, we send EOF to all established streams.
         self.flows.write().drain().for_each(|(flow_id, slot)| {
